@@ -432,3 +432,51 @@ Proof.
   inversion H as [|? ? Ha H']; subst. constructor; [|now apply IH].
   intro Hin. apply Ha. apply in_flat_map in Hin. destruct Hin as [b [Hb [<-|[]]]]. now apply in_map.
 Qed.
+
+Lemma str_app_inj_len (a b s s' : string) : String.length s = String.length s' -> a ++ s = b ++ s' -> a = b /\ s = s'.
+Proof.
+  revert b. induction a as [|c a IH]; intros [|d b] Hl H; simpl in H.
+  - now split.
+  - exfalso. apply (f_equal String.length) in H. simpl in H. rewrite str_length_app in H. lia.
+  - exfalso. apply (f_equal String.length) in H. simpl in H. rewrite str_length_app in H. lia.
+  - injection H as -> H. destruct (IH b Hl H) as [-> ->]. now split.
+Qed.
+
+Lemma digit_inj i j : i < 10 -> j < 10 -> digit i = digit j -> i = j.
+Proof.
+  intros Hi Hj.
+  destruct i as [|[|[|[|[|[|[|[|[|[|i]]]]]]]]]]; try lia;
+  destruct j as [|[|[|[|[|[|[|[|[|[|j]]]]]]]]]]; try lia; simpl; intro H; try reflexivity; discriminate.
+Qed.
+
+Lemma digit_len i : i < 10 -> String.length ("." ++ digit i) = 2.
+Proof. intro Hi. destruct i as [|[|[|[|[|[|[|[|[|[|i]]]]]]]]]]; try lia; reflexivity. Qed.
+
+Lemma nodup_map_inj_in {A B} (f : A -> B) l : (forall x y, In x l -> In y l -> f x = f y -> x = y) -> NoDup l -> NoDup (map f l).
+Proof.
+  induction l as [|a l IH]; simpl; intros Hinj H; [constructor|].
+  inversion H as [|? ? Ha H']; subst. constructor.
+  - intro Hin. apply in_map_iff in Hin. destruct Hin as [x [Hx Hin]]. apply Ha.
+    assert (x = a) by (apply Hinj; [now right|now left|exact Hx]). now subst.
+  - apply IH; [|exact H']. intros x y Hx Hy. apply Hinj; now right.
+Qed.
+
+(* vectorised jobs: <key>.<i> for i < L <= 10 are pairwise distinct when the keys are *)
+Lemma names_vec_nodup st arg strict : NoDup (map fst (js_src st)) -> (forall kl, In kl (js_src st) -> snd kl <= 10) ->
+  NoDup (all_names (mk_jp arg strict true) st).
+Proof.
+  unfold all_names, names. simpl. induction (js_src st) as [|a l IH]; simpl; intros H HL; [constructor|].
+  inversion H as [|? ? Ha H']; subst.
+  assert (La : snd a <= 10) by (apply HL; now left).
+  apply nodup_app_intro.
+  - apply nodup_map_inj_in; [|apply seq_NoDup].
+    intros x y Hx Hy E. apply in_seq in Hx. apply in_seq in Hy.
+    apply str_app_inj_len in E; [|transitivity 2; [apply digit_len|symmetry; apply digit_len]; lia].
+    destruct E as [_ E]. injection E as E. apply digit_inj; [lia|lia|exact E].
+  - apply IH; [exact H'|]. intros kl Hkl. apply HL. now right.
+  - intros x Hx Hin. apply in_map_iff in Hx. destruct Hx as [i [<- Hi]]. apply in_seq in Hi.
+    apply in_flat_map in Hin. destruct Hin as [b [Hb Hxb]]. apply in_map_iff in Hxb. destruct Hxb as [j [E Hj]].
+    apply in_seq in Hj. assert (Lb : snd b <= 10) by (apply HL; now right).
+    apply str_app_inj_len in E; [|transitivity 2; [apply digit_len|symmetry; apply digit_len]; lia]. destruct E as [E _].
+    apply Ha. rewrite <- E. now apply in_map.
+Qed.
